@@ -9,8 +9,19 @@ def SpecOK : TrigSpec → Prop
   | _ => True
 
 theorem badDelta_false {δ : Int} (h : badDelta δ = false) : 0 < δ ∧ δ % 60 = 0 := by
-  simp only [badDelta, Bool.or_eq_false_iff, bne_eq_false_iff_eq, decide_eq_false_iff_not] at h
+  unfold badDelta at h
+  simp only [Bool.or_eq_false_iff, bne_eq_false_iff_eq] at h
+  have h2 := of_decide_eq_false h.2
+  have h1 := h.1
+  simp only [Gen.coreTrigDeltaMod, Gen.coreTrigDeltaLow] at h1 h2
   omega
+
+theorem badDelta_of {δ : Int} (h : 0 < δ ∧ δ % 60 = 0) : badDelta δ = false := by
+  unfold badDelta
+  simp only [Bool.or_eq_false_iff, bne_eq_false_iff_eq]
+  refine ⟨?_, decide_eq_false ?_⟩
+  · simp only [Gen.coreTrigDeltaMod]; exact h.2
+  · simp only [Gen.coreTrigDeltaLow]; omega
 
 theorem WF_of_make {sp : TrigSpec} {k : TrigKind} (hm : sp.make = .ok k) (hok : SpecOK sp) : WF k := by
   cases sp with
